@@ -500,7 +500,7 @@ func Run(o *core.Options) int {
 		"fair scheduling: a thread with 24 consecutive read-only operations yields to non-spinning threads",
 		"capacity 2, <=2 producers x <=3 items, <=2 consumers; TryRecv=false is always accepted (an item whose producer has not finished linking is invisible)")
 	scs := Scenarios(o.Thorough())
-	b := e1.Budget{Bounds: []int{0, 1, 2, -1}, Required: 2, Prune: true, PerScen: 30 * time.Second}
+	b := e1.Budget{Bounds: []int{0, 1, 2, -1}, Required: 2, Prune: true, PerScen: 30 * time.Second, DevBounds: []int{1, 2, 3}, DevRequired: 2, DevPerScen: 8 * time.Second}
 	if o.Thorough() {
 		b.PerScen = 10 * time.Minute
 		b.Required = 3
